@@ -205,7 +205,9 @@ func checkC18(c *Check) {
 		importObls(c, "C04", checkC04, "C18.R3", func(o *Obligation) bool {
 			return strings.HasPrefix(o.Key, "C04.R1/anchor") || strings.HasPrefix(o.Key, "C04.R2/headers") || strings.HasPrefix(o.Key, "C04.R2/exchange-sends-table")
 		})
-		importObls(c, "C20", checkC20, "C18.R3", func(o *Obligation) bool { return strings.HasPrefix(o.Key, "C20.R2/rootcas-provenance") })
+		importObls(c, "C20", checkC20, "C18.R3", func(o *Obligation) bool {
+			return strings.HasPrefix(o.Key, "C20.R2/rootcas-provenance") || strings.HasPrefix(o.Key, "C20.R4/pool-key-encoding-injective")
+		})
 	}
 
 	// ---- R3
@@ -293,6 +295,9 @@ func checkC18(c *Check) {
 	// the key set a filter verifies with is derived from its own configuration (C02.R5's key-set provenance)
 	importObls(c, "C02", checkC02, "C18.R3", func(o *Obligation) bool { return strings.HasPrefix(o.Key, "C02.R5/keyset") })
 	handlerConfigOwn(c, "C18.R3", R)
+	// one filter's answer is not rewritten by another filter's: the header list of a denied response has a backing array
+	// of its own (a package-level slice handed out with spare capacity is appended to by every filter's redirect)
+	headersOwnBacking(c, "C18.R3", R)
 	// each Redis-backed filter talks to the Redis its own URI names (database and credentials included): the client
 	// handed to the store constructor is redis.NewClient of options parsed from this filter's URI, created for this
 	// store — not a client looked up under a coarser key (host:port)
@@ -441,6 +446,40 @@ func checkC19(c *Check) {
 	pre := P.Func(pkgK8s, "(*SecretController).PreRun")
 	if !c.Anchor("C19.R1", "SecretController Reconcile/loadSecrets/PreRun", rec != nil && load != nil && pre != nil) {
 		return
+	}
+	// every change of a Secret reaches Reconcile: the watch is registered without event filters. Secrets have no
+	// spec, so metadata.generation never changes — a GenerationChangedPredicate (or any other predicate, or a global
+	// event filter) drops the very update events that carry a rotated value
+	{
+		nFor, bad := 0, ""
+		for _, f := range deepFuncs(pre, 1) {
+			if pkgPathOf(f) != pkgK8s {
+				continue
+			}
+			for _, ci := range allCalls(f) {
+				ce := calleeOf(ci)
+				if ce.Obj == nil || ce.Obj.Pkg() == nil || !strings.HasSuffix(ce.Obj.Pkg().Path(), "controller-runtime/pkg/builder") {
+					continue
+				}
+				switch ce.Obj.Name() {
+				case "For", "Owns", "Watches", "WatchesRawSource", "WatchesMetadata":
+					if ce.Obj.Name() == "For" {
+						nFor++
+					}
+					args := callArgs(ci)
+					if len(args) > 0 {
+						last := stripConv(args[len(args)-1])
+						if _, isSl := last.Type().Underlying().(*types.Slice); isSl && !isNilConst(last) {
+							bad = ce.Obj.Name() + " is given options at " + posOf(P, ci)
+						}
+					}
+				case "WithEventFilter":
+					bad = "WithEventFilter is applied to the controller at " + posOf(P, ci)
+				}
+			}
+		}
+		c.Obl(nFor >= 1 && bad == "", "C19.R1", "watch-is-unfiltered", P.Pos(pre.Pos()), "the Secret watch is registered without predicates or event filters",
+			"the Secret watch filters events ("+bad+"): an update that only changes the Secret's data can be dropped before Reconcile and the rotated value never reaches the filters")
 	}
 	ff := FactsOf(rec)
 	// the write
